@@ -24,3 +24,258 @@ theorem eligibleIdx_append (pool : List Backend) (b : Backend) (now : Nat) :
     cases b.eligible now <;> simp
 
 end Helios.LB
+
+namespace Helios.LB
+
+/-- eligibility and "inside an unhealthy window" are complementary -/
+theorem eligible_iff_not_inWindow (b : Backend) (now : Nat) :
+    b.eligible now = !b.inWindow now := by
+  simp only [Backend.eligible, Backend.inWindow]
+  cases b.healthy <;> cases b.until_ <;> simp
+  rename_i u
+  by_cases h : u < now <;> simp [h] <;> omega
+
+/-! ### round robin -/
+
+theorem rrLoop_sound (pool : List Backend) (now : Nat) (fuel : Nat) : ∀ (cur : Nat) (i : Nat),
+    (rrLoop pool now fuel cur).2 = some i → ∃ b, pool[i]? = some b ∧ b.eligible now = true := by
+  induction fuel with
+  | zero => intro cur i h; simp [rrLoop] at h
+  | succ f ih =>
+    intro cur i h
+    simp only [rrLoop] at h
+    split at h
+    · rename_i b hb
+      split at h
+      · rename_i he
+        simp at h; subst h
+        exact ⟨b, hb, he⟩
+      · exact ih _ i h
+    · simp at h
+
+/-- without counter wrap-around, a failed loop has tried `cur+1 … cur+fuel` -/
+theorem rrLoop_none (pool : List Backend) (now : Nat) (fuel : Nat) : ∀ (cur : Nat),
+    cur + fuel < two64 → 0 < pool.length → (rrLoop pool now fuel cur).2 = none →
+    ∀ k, 1 ≤ k → k ≤ fuel → ∀ b, pool[(cur + k) % pool.length]? = some b → b.eligible now = false := by
+  induction fuel with
+  | zero => intro cur _ _ _ k h1 h2; omega
+  | succ f ih =>
+    intro cur hw hn h k h1 h2 b hb
+    have hmod : (cur + 1) % two64 = cur + 1 := Nat.mod_eq_of_lt (by omega)
+    simp only [rrLoop, hmod] at h
+    have hidx : (cur + 1) % pool.length < pool.length := Nat.mod_lt _ hn
+    rw [List.getElem?_eq_getElem hidx] at h
+    simp only [] at h
+    by_cases he : (pool[(cur + 1) % pool.length]).eligible now = true
+    · simp [he] at h
+    · simp only [he, Bool.false_eq_true, if_false] at h
+      by_cases hk : k = 1
+      · subst hk
+        rw [List.getElem?_eq_getElem hidx] at hb
+        simp at hb; subst hb
+        simpa using he
+      · have := ih (cur + 1) (by omega) hn h (k - 1) (by omega) (by omega) b
+        rw [show cur + 1 + (k - 1) = cur + k by omega] at this
+        exact this hb
+
+/-- every index is one of `n` consecutive counter values modulo `n` -/
+theorem residues_cover (cur n j : Nat) (hj : j < n) : ∃ k, 1 ≤ k ∧ k ≤ n ∧ (cur + k) % n = j := by
+  have hdm := Nat.div_add_mod cur n
+  have hc : cur % n < n := Nat.mod_lt _ (by omega)
+  generalize hcq : cur / n = q at *
+  generalize hcr : cur % n = c at *
+  by_cases h1 : c < j
+  · refine ⟨j - c, by omega, by omega, ?_⟩
+    rw [show cur + (j - c) = n * q + j by omega, Nat.mul_add_mod, Nat.mod_eq_of_lt hj]
+  · by_cases h2 : c = j
+    · refine ⟨n, by omega, by omega, ?_⟩
+      rw [show cur + n = n * (q + 1) + j by rw [Nat.mul_add]; omega, Nat.mul_add_mod, Nat.mod_eq_of_lt hj]
+    · refine ⟨n - c + j, by omega, by omega, ?_⟩
+      rw [show cur + (n - c + j) = n * (q + 1) + j by rw [Nat.mul_add]; omega, Nat.mul_add_mod,
+        Nat.mod_eq_of_lt hj]
+
+theorem rrPick_sound (pool : List Backend) (now cur i : Nat) (h : (rrPick pool now cur).2 = some i) :
+    ∃ b, pool[i]? = some b ∧ b.eligible now = true := by
+  simp only [rrPick] at h
+  split at h
+  · simp at h
+  · exact rrLoop_sound pool now _ cur i h
+
+theorem rrPick_complete (pool : List Backend) (now cur : Nat) (hw : cur + pool.length < two64)
+    (h : (rrPick pool now cur).2 = none) : ∀ b ∈ pool, b.eligible now = false := by
+  intro b hb
+  simp only [rrPick] at h
+  split at h
+  · rename_i h0
+    have : pool = [] := List.length_eq_zero_iff.mp h0
+    subst this; cases hb
+  · rename_i h0
+    have hn : 0 < pool.length := by omega
+    obtain ⟨j, hj, hjb⟩ := List.getElem_of_mem hb
+    obtain ⟨k, k1, k2, k3⟩ := residues_cover cur pool.length j hj
+    apply rrLoop_none pool now pool.length cur hw hn h k k1 k2 b
+    rw [k3, List.getElem?_eq_getElem hj, hjb]
+
+/-! ### least connections -/
+
+theorem lcScan_spec (now : Nat) (pool : List Backend) (bs : List Backend) :
+    ∀ (i : Nat) (mn : Int) (sel : Option Nat), pool.drop i = bs →
+    (∀ r, sel = some r → ∃ b, pool[r]? = some b ∧ b.eligible now = true ∧ b.conns = mn) →
+    (∀ (j : Nat) (b : Backend), j < i → pool[j]? = some b → b.eligible now = true → mn ≤ b.conns) →
+    (sel = none → mn = maxInt32) →
+    (∀ r, lcScan now bs i mn sel = some r →
+        ∃ b, pool[r]? = some b ∧ b.eligible now = true ∧
+          ∀ (j : Nat) (b' : Backend), pool[j]? = some b' → b'.eligible now = true → b.conns ≤ b'.conns) ∧
+    (lcScan now bs i mn sel = none →
+        ∀ (j : Nat) (b' : Backend), pool[j]? = some b' → b'.eligible now = true → maxInt32 ≤ b'.conns) := by
+  induction bs with
+  | nil =>
+    intro i mn sel hd hsel hmin hnone
+    have hlen : pool.length ≤ i := by
+      have := congrArg List.length hd
+      simp at this; omega
+    simp only [lcScan]
+    constructor
+    · intro r hr
+      obtain ⟨b, h1, h2, h3⟩ := hsel r hr
+      refine ⟨b, h1, h2, ?_⟩
+      intro j b' hj he
+      have hjl : j < pool.length := (List.getElem?_eq_some_iff.mp hj).1
+      rw [h3]; exact hmin j b' (by omega) hj he
+    · intro hr j b' hj he
+      have hjl : j < pool.length := (List.getElem?_eq_some_iff.mp hj).1
+      rw [← hnone hr]; exact hmin j b' (by omega) hj he
+  | cons b bs ih =>
+    intro i mn sel hd hsel hmin hnone
+    have hi : pool[i]? = some b := by
+      have : (pool.drop i)[0]? = some b := by rw [hd]; rfl
+      simpa using this
+    have hd' : pool.drop (i + 1) = bs := by
+      have := congrArg List.tail hd
+      simpa [List.tail_drop] using this
+    simp only [lcScan]
+    by_cases hc : (b.eligible now && decide (b.conns < mn)) = true
+    · simp only [hc, if_true]
+      simp only [Bool.and_eq_true, decide_eq_true_eq] at hc
+      apply ih (i + 1) b.conns (some i) hd'
+      · intro r hr; simp at hr; subst hr; exact ⟨b, hi, hc.1, rfl⟩
+      · intro j b' hj hb' he
+        by_cases hji : j = i
+        · subst hji; rw [hi] at hb'; simp at hb'; subst hb'; exact Int.le_refl _
+        · have := hmin j b' (by omega) hb' he; omega
+      · intro h; simp at h
+    · simp only [hc, Bool.false_eq_true, if_false]
+      apply ih (i + 1) mn sel hd' hsel
+      · intro j b' hj hb' he
+        by_cases hji : j = i
+        · subst hji; rw [hi] at hb'; simp at hb'; subst hb'
+          simp only [Bool.and_eq_true, decide_eq_true_eq, not_and] at hc
+          have := hc he; omega
+        · exact hmin j b' (by omega) hb' he
+      · exact hnone
+
+theorem lcPick_spec (pool : List Backend) (now : Nat) :
+    (∀ r, lcPick pool now = some r →
+        ∃ b, pool[r]? = some b ∧ b.eligible now = true ∧
+          ∀ (j : Nat) (b' : Backend), pool[j]? = some b' → b'.eligible now = true → b.conns ≤ b'.conns) ∧
+    (lcPick pool now = none →
+        ∀ (j : Nat) (b' : Backend), pool[j]? = some b' → b'.eligible now = true → maxInt32 ≤ b'.conns) := by
+  apply lcScan_spec now pool pool 0 maxInt32 none (by simp)
+  · intro r h; simp at h
+  · intro j b h; omega
+  · intro _; rfl
+
+/-! ### smooth weighted round robin: who is chosen -/
+
+theorem wrrBump_eligible (pool : List Backend) (now : Nat) (i : Nat) :
+    ((wrrBump pool now)[i]?).map (·.eligible now) = (pool[i]?).map (·.eligible now) := by
+  simp only [wrrBump, List.getElem?_map]
+  cases pool[i]? with
+  | none => rfl
+  | some b =>
+    simp only [Option.map_some]
+    by_cases h : b.eligible now = true
+    · simp only [h, if_true]; simpa [Backend.eligible] using h
+    · simp [h]
+
+theorem wrrBest_spec (now : Nat) (pool : List Backend) (bs : List Backend) :
+    ∀ (i : Nat) (best : Option (Nat × Int)), pool.drop i = bs →
+    (∀ (r : Nat) (c : Int), best = some (r, c) → ∃ b, pool[r]? = some b ∧ b.eligible now = true) →
+    (best = none → ∀ (j : Nat) (b : Backend), j < i → pool[j]? = some b → b.eligible now = false) →
+    (∀ (r : Nat) (c : Int), wrrBest now bs i best = some (r, c) → ∃ b, pool[r]? = some b ∧ b.eligible now = true) ∧
+    (wrrBest now bs i best = none → ∀ (j : Nat) (b : Backend), pool[j]? = some b → b.eligible now = false) := by
+  induction bs with
+  | nil =>
+    intro i best hd hb hn
+    have hlen : pool.length ≤ i := by
+      have := congrArg List.length hd
+      simp at this; omega
+    simp only [wrrBest]
+    refine ⟨hb, fun h j b hj => hn h j b ?_ hj⟩
+    have := (List.getElem?_eq_some_iff.mp hj).1; omega
+  | cons b bs ih =>
+    intro i best hd hb hn
+    have hi : pool[i]? = some b := by
+      have : (pool.drop i)[0]? = some b := by rw [hd]; rfl
+      simpa using this
+    have hd' : pool.drop (i + 1) = bs := by
+      have := congrArg List.tail hd
+      simpa [List.tail_drop] using this
+    simp only [wrrBest]
+    by_cases he : b.eligible now = true
+    · simp only [he, if_true]
+      cases best with
+      | none =>
+        simp only []
+        apply ih (i + 1) _ hd'
+        · intro r c h; simp at h; obtain ⟨rfl, _⟩ := h; exact ⟨b, hi, he⟩
+        · intro h; simp at h
+      | some p =>
+        obtain ⟨r0, c0⟩ := p
+        simp only []
+        split
+        · apply ih (i + 1) _ hd'
+          · intro r c h; simp at h; obtain ⟨rfl, _⟩ := h; exact ⟨b, hi, he⟩
+          · intro h; simp at h
+        · apply ih (i + 1) _ hd' hb
+          · intro h; simp at h
+    · simp only [he, Bool.false_eq_true, if_false]
+      apply ih (i + 1) best hd' hb
+      intro h j b' hj hb'
+      by_cases hji : j = i
+      · subst hji; rw [hi] at hb'; simp at hb'; subst hb'; simpa using he
+      · exact hn h j b' (by omega) hb'
+
+theorem wrrPick_spec (pool : List Backend) (now : Nat) :
+    (∀ i, (wrrPick pool now).2 = some i → ∃ b, pool[i]? = some b ∧ b.eligible now = true) ∧
+    ((wrrPick pool now).2 = none → ∀ b ∈ pool, b.eligible now = false) := by
+  have hs := wrrBest_spec now (wrrBump pool now) (wrrBump pool now) 0 none (by simp)
+    (by intro r c h; simp at h) (by intro _ j b h; omega)
+  constructor
+  · intro i h
+    simp only [wrrPick] at h
+    split at h
+    · simp at h
+    · rename_i r c hbest
+      simp at h; subst h
+      obtain ⟨b, hb1, hb2⟩ := hs.1 r c hbest
+      have := wrrBump_eligible pool now r
+      rw [hb1] at this
+      cases hp : pool[r]? with
+      | none => simp [hp] at this
+      | some b0 => simp [hp, hb2] at this; exact ⟨b0, rfl, this⟩
+  · intro h b hb
+    simp only [wrrPick] at h
+    split at h
+    · rename_i hbest
+      obtain ⟨j, hj, hjb⟩ := List.getElem_of_mem hb
+      have hlen : j < (wrrBump pool now).length := by simpa [wrrBump] using hj
+      have h2 := hs.2 hbest j ((wrrBump pool now)[j]) (List.getElem?_eq_getElem hlen)
+      have := wrrBump_eligible pool now j
+      rw [List.getElem?_eq_getElem hlen, List.getElem?_eq_getElem hj] at this
+      simp only [Option.map_some, Option.some.injEq] at this
+      rw [hjb] at this
+      rw [← this]; exact h2
+    · simp at h
+
+end Helios.LB
